@@ -29,6 +29,7 @@ def facts : Facts :=
     assertPtrOwnOnly := true,
     tswitchCasesChecked := true,
     assertHostWrapsHeld := true,
+    wrapperUsesMethodSet := true,
     recvBind := { atCreation := true, ptrToVal := .set, valToPtr := .slot, same := .set, call := .set,
                   lateNilNode := true, lateCall := .set, ifaceWrapHeld := true },
     ifaceCopies := true }
@@ -57,12 +58,20 @@ def oldFacts : Facts :=
     assertPtrOwnOnly := false,
     tswitchCasesChecked := false,
     assertHostWrapsHeld := false,
+    wrapperUsesMethodSet := true,
     recvBind := { atCreation := false, ptrToVal := .set, valToPtr := .set, same := .set, call := .slot,
                   lateNilNode := false, lateCall := .slot, ifaceWrapHeld := false },
     ifaceCopies := false }
 
 def oldDefaultSwap : Bool := oldFacts.defaultSwap
 def oldClauseChain : Chain := oldFacts.clauseChain
+
+/-- stdlib/wrapper-composed.go: three host interfaces have a composed wrapper, each with one optional
+    interface (io.WriterTo, io.ReaderFrom, http.Hijacker) -/
+def composedWrappers : List (String × List (List String)) :=
+  [("_io_Reader", [["Read", "WriteTo"]]),
+   ("_io_Writer", [["Write", "ReadFrom"]]),
+   ("_net_http_ResponseWriter", [["Header", "Write", "WriteHeader", "Hijack"]])]
 
 def unrecognised : List String := []
 
@@ -98,6 +107,7 @@ def sourceHashes : List (String × String) :=
    ("genDestValue", "6d332c89aa45b5ab"),
    ("genValueInterface", "1ef4b98ccbd7c706"),
    ("genValueRecv", "a3dad7fc975e9eb7"),
+   ("getWrapper", "1311018b7c7efb25"),
    ("cfg.go case selectorExpr", "fa5a2fe359c5e2de"),
    ("cfg.go pre-order case switchStmt, typeSwitch", "773e4a50ec016090"),
    ("cfg.go post-order case switchStmt", "93061192f5364e43"),
